@@ -70,35 +70,41 @@ PROPS = {
 # reported as a note (the check of that other property is the one that must fail), not as an alarm.
 # Panics / debug assertions / crashes inside mmtk-core have no native property and always count.
 RELATED = {
+    # heap integrity: a broken mechanism of any of these shows as lost / corrupt / overlapping objects
     "C01": {"C01"},
     "C02": {"C02"},
     "C03": {"C03"},
     "C04": {"C04"},
     "C05": {"C05", "C01"},
-    "C06": {"C06"},
-    "C07": {"C07"},
-    "C08": {"C08"},
-    "C09": {"C09"},
-    "C10": {"C10"},
-    "C11": {"C11"},
     "C12": {"C12", "C01"},
-    "C13": {"C13"},
-    "C14": {"C14"},
-    "C15": {"C15"},
-    "C16": {"C16", "C14"},
     "C17": {"C17", "C01"},
-    "C18": {"C18"},
-    "C19": {"C19"},
-    "C20": {"C20"},
-    "C23": {"C23"},
-    "C28": {"C28", "C02"},
-    "C30": {"C30"},
-    "C29": {"C29", "C31"},
-    "C31": {"C31"},
+    "C18": {"C18", "C01", "C05"},
     "C34": {"C34", "C01", "C02"},
     "C36": {"C36", "C01", "C02"},
     "C37": {"C37", "C01"},
+    # reference processing
+    "C06": {"C06"},
+    "C13": {"C13", "C15"},
+    # valid-object bits
+    "C07": {"C07", "C08"},
+    "C08": {"C08", "C07"},
+    # allocation contract / accounting
+    "C09": {"C09", "C28"},
+    "C10": {"C10"},
+    "C28": {"C28", "C02"},
+    "C29": {"C29", "C31"},
+    "C31": {"C31"},
     "C38": {"C38"},
+    # scheduler protocol
+    "C11": {"C11", "C15"},
+    "C14": {"C14"},
+    "C15": {"C15", "C11", "C13"},
+    "C16": {"C16", "C14"},
+    # components
+    "C19": {"C19"},
+    "C20": {"C20"},
+    "C23": {"C23"},
+    "C30": {"C30"},
 }
 
 
@@ -358,11 +364,12 @@ def selftest_determinism(n, variants=("A",)):
     total = 0
     for v in variants:
         simlib.build(v)
-        jobs = [(v, 5000 + i) for i in range(n)]
+        foci = sorted(p for p in PROPS if v in PROPS[p]["variants"])
+        jobs = [(v, 5000 + i, foci[i % len(foci)]) for i in range(n)]
 
         def one(job):
-            a = simlib.run_seed(job[0], job[1], "C01", "quick")
-            b = simlib.run_seed(job[0], job[1], "C01", "quick")
+            a = simlib.run_seed(job[0], job[1], job[2], "quick")
+            b = simlib.run_seed(job[0], job[1], job[2], "quick")
             return job, a, b
 
         with cf.ThreadPoolExecutor(max_workers=NPROC) as ex:
@@ -372,7 +379,7 @@ def selftest_determinism(n, variants=("A",)):
                 kb = (b.get("status"), b.get("class"), b.get("sched", {}).get("trace_hash"), b.get("sched", {}).get("steps"))
                 if ka != kb:
                     bad += 1
-                    print("NONDETERMINISM variant %s seed %d: %s vs %s" % (job[0], job[1], ka, kb))
+                    print("NONDETERMINISM variant %s seed %d focus %s: %s vs %s" % (job[0], job[1], job[2], ka, kb))
     print("determinism self-test: %d seeds x 2 runs, %d mismatches" % (total, bad))
     return 0 if bad == 0 else 2
 
